@@ -463,6 +463,180 @@ func runC15(r *Run) {
 		r.atLeast("session methods that wipe the data", n, 1)
 	})
 
+	r.rule("R12", "a session goes back to the pool once: on no path through a function of the package is Release called twice on the same session value, counting a deferred Release together with the plain calls after it — the pool would hand the same object to the next two requests, whose data and ids then mix (E2 pairing: at most one release per acquisition)", func() {
+		nRel := 0
+		type fnd struct{ fn, pos, detail string }
+		var bad []fnd
+		r.P.AllFuncs(sessPkg, func(f *ssa.Function) {
+			type rel struct {
+				in    ssa.Instruction
+				recv  ssa.Value
+				defer_ bool
+			}
+			var rels []rel
+			for _, b := range f.Blocks {
+				for _, in := range b.Instrs {
+					ci, ok := in.(ssa.CallInstruction)
+					if !ok || !(strings.HasSuffix(calleeName(ci.Common()), "session.Session).Release") || strings.HasSuffix(calleeName(ci.Common()), "session.releaseSession")) || len(ci.Common().Args) == 0 {
+						continue
+					}
+					_, isDefer := in.(*ssa.Defer)
+					rels = append(rels, rel{in, ci.Common().Args[0], isDefer})
+					nRel++
+				}
+			}
+			for i, a := range rels {
+				for j, b := range rels {
+					if i == j || b.defer_ && !a.defer_ {
+						continue
+					}
+					if !sameExpr(a.recv, b.recv) {
+						continue
+					}
+					// a deferred release runs at every return after it; a plain release after a (plain or deferred) one doubles it
+					_, hit := reach(pointAfter(a.in), func(in ssa.Instruction) bool { return in == b.in }, nil, func(in ssa.Instruction) bool {
+						return isCallTo(in, nameHasSuffix("session.acquireSession"))
+					})
+					if hit != nil {
+						how := "after an earlier Release"
+						if a.defer_ {
+							how = "although a deferred Release is already registered (" + r.pos(a.in) + ")"
+						}
+						bad = append(bad, fnd{short(f.String()), r.pos(b.in), how})
+					}
+				}
+			}
+		})
+		r.atLeast("Release calls in the session package", nRel, 3)
+		if len(bad) == 0 {
+			r.ok("Release:at-most-once-per-path", "", fmt.Sprintf("%d Release calls; no path releases one session value twice", nRel))
+		}
+		for _, b := range bad {
+			r.bad(b.fn+":Release:at-most-once-per-path", b.pos, "a session is released a second time "+b.detail+": sync.Pool then holds the object twice and hands it to two requests at once — client B reads what client A just set, A's session takes B's id")
+		}
+	})
+
+	r.rule("R11", "only `no lifetime` means `never expires`: the bundled memory storages (the session store's default) keep expiry 0 for entries that never expire; in their Set (or the helper that computes the expiry) the branch that leaves the expiry at 0 is taken on the lifetime argument itself being zero (or not positive) — not on its truncation to whole seconds, which is also 0 for every idle timeout below one second and would make such a session immortal (E1: the value the guard compares)", func() {
+		n := 0
+		for _, pk := range []string{"internal/storage/memory", "internal/memory"} {
+			set := r.Fn(pk, "(*Storage).Set")
+			for _, f := range append([]*ssa.Function{set}, helpersOf(set)...) {
+				var dur *ssa.Parameter
+				for _, p := range f.Params {
+					if strings.HasSuffix(p.Type().String(), "time.Duration") {
+						dur = p
+					}
+				}
+				if dur == nil {
+					continue
+				}
+				if f != set {
+					// the helper is handed Set's own lifetime
+					okArg := false
+					for _, c := range staticCallersOf(f) {
+						for k, a := range c.Call.Args {
+							if k < len(f.Params) && f.Params[k] == dur {
+								if pa, ok := stripValue(a).(*ssa.Parameter); ok && strings.HasSuffix(pa.Type().String(), "time.Duration") {
+									okArg = true
+								}
+							}
+						}
+					}
+					if !okArg {
+						continue
+					}
+				}
+				isInt := func(t types.Type) bool {
+					bt, ok := t.Underlying().(*types.Basic)
+					return ok && bt.Info()&types.IsInteger != 0
+				}
+				// blocks in which a non-zero expiry is computed, next to a zero alternative
+				type site struct {
+					blk *ssa.BasicBlock
+					at  ssa.Instruction
+				}
+				var sites []site
+				hasZeroRet := false
+				var nonZeroRets []*ssa.Return
+				for _, b := range f.Blocks {
+					for _, in := range b.Instrs {
+						switch x := in.(type) {
+						case *ssa.Phi:
+							if !isInt(x.Type()) {
+								continue
+							}
+							hasZero := false
+							for _, e := range x.Edges {
+								if isConstInt(e, 0) {
+									hasZero = true
+								}
+							}
+							if !hasZero {
+								continue
+							}
+							for k, e := range x.Edges {
+								if !isConstInt(e, 0) {
+									sites = append(sites, site{b.Preds[k], x})
+								}
+							}
+						case *ssa.Return:
+							if len(x.Results) == 1 && isInt(x.Results[0].Type()) {
+								if isConstInt(x.Results[0], 0) {
+									hasZeroRet = true
+								} else if _, isPhi := x.Results[0].(*ssa.Phi); !isPhi {
+									nonZeroRets = append(nonZeroRets, x)
+								}
+							}
+						}
+					}
+				}
+				if hasZeroRet {
+					for _, rt := range nonZeroRets {
+						sites = append(sites, site{rt.Block(), rt})
+					}
+				}
+				for _, st := range sites {
+					n++
+					pb := st.blk
+					decided, okGuard := false, true
+					why := ""
+					for d := pb; d != nil && !decided; d = d.Idom() {
+						par := d.Idom()
+						if par == nil {
+							break
+						}
+						i, ok := par.Instrs[len(par.Instrs)-1].(*ssa.If)
+						if !ok {
+							continue
+						}
+						slot := -1
+						for sl, sc := range par.Succs {
+							if sc == d || dom(sc, pb) {
+								slot = sl
+							}
+						}
+						if slot < 0 {
+							continue
+						}
+						decided = true
+						ci := decompose(i.Cond)
+						if !(ci.Root == ssa.Value(dur) && ci.Const != nil && isConstInt(ci.Const, 0)) {
+							okGuard = false
+							why = "the guard at " + r.pos(i) + " does not compare the lifetime argument itself with 0"
+						}
+					}
+					if !decided {
+						okGuard = false
+						why = "no guard found around the computation of the expiry"
+					}
+					r.check(okGuard, pk+":"+short(f.String())+":never-expires-only-for-no-lifetime", r.pos(st.at), "the expiry stays 0 exactly when the lifetime argument is 0 (not positive)",
+						"the memory storage decides `never expires` on something else than the lifetime it was given ("+why+"): a lifetime below one second truncates to 0 whole seconds — a session saved with IdleTimeout 900ms (or SetIdleTimeout(time.Until(tokenExpiry)) near the end) never expires, its id keeps yielding the data")
+				}
+			}
+		}
+		r.atLeast("expiry choices in the memory storages", n, 2)
+	})
+
 	r.rule("R10", "a pooled buffer goes back empty on every path: in every function of the package that takes a *bytes.Buffer from a sync.Pool, each Put of it is preceded by its Reset — as plain calls on every path from the Get, or as deferred calls registered so that the Reset runs first (defers run last-in first-out) — the encoder writes type information into the buffer before it fails, a buffer returned after a failed Encode corrupts the next session that is saved or loaded through it (E1 pairing)", func() {
 		n := 0
 		r.P.AllFuncs(sessPkg, func(f *ssa.Function) {
